@@ -11,6 +11,7 @@ import (
 	"fmt"
 	"io"
 	"math"
+	"os"
 	"sort"
 	"strings"
 
@@ -22,6 +23,7 @@ import (
 
 	"verif/harness/core"
 	"verif/harness/meshlib"
+	"verif/harness/props/plyio"
 	"verif/harness/props/plyref"
 )
 
@@ -99,6 +101,10 @@ type Case struct {
 	Scope string  `json:"scope"`
 	Mesh  MeshCfg `json:"mesh"`
 	W     WCfg    `json:"writer"`
+	// Readers: also read the written bytes through every io.Reader variant; Files: additionally
+	// through *os.File, ply.Load and ply.Save (temp file under /dev/shm)
+	Readers bool `json:"readers,omitempty"`
+	Files   bool `json:"files,omitempty"`
 }
 
 // ---------------------------------------------------------------------------------------------
@@ -465,6 +471,8 @@ const (
 	clause1 = "reading back what was written yields the same topology, primitive count and per-corner attributes within the stored type's precision"
 	clause2 = "ascii, little-endian and big-endian encodings of one mesh decode to the same result"
 	clause3 = "the header describes the body that follows (element counts, property list, byte sizes)"
+	// the io.Reader that delivers the bytes is part of "reading it back"
+	clauseReader = "reading back yields the same mesh whatever io.Reader delivers the written bytes (result identical to the *bytes.Reader delivery)"
 )
 
 type checker struct{ c *core.Ctx }
@@ -659,21 +667,19 @@ func (k checker) eval(cs Case) {
 					}
 				}
 			}
-			var back *modeling.Mesh
-			var rerr error
-			o = core.Guard(func() { back, rerr = ply.ReadMesh(bytes.NewReader(data)) })
-			if o.Crash() {
-				violate(site(o.Stack), clause1, "read-crash/"+f.label+"/"+shape, "reader crashed on the writer's output: "+o.Msg)
+			base := plyio.Base(data) // the reference delivery: *bytes.Reader
+			if cs.Readers {
+				k.readerVariants(cs, scope, isAlarmed, f.label, f.lib, shape, data, base, violate)
+			}
+			if base.Crash {
+				violate(base.Site, clause1, "read-crash/"+f.label+"/"+shape, "reader crashed on the writer's output: "+base.Err)
 				return "read-crash"
 			}
-			if o.Panicked || rerr != nil || back == nil {
-				msg := o.Msg
-				if rerr != nil {
-					msg = rerr.Error()
-				}
-				violate("ply.MeshReader.Read", clause1, "read-failure/"+f.label+"/"+shape, "reader refused the writer's output: "+msg)
+			if !base.Loaded() {
+				violate("ply.MeshReader.Read", clause1, "read-failure/"+f.label+"/"+shape, "reader refused the writer's output: "+base.Err)
 				return "read-failure"
 			}
+			back := base.Mesh
 			got := plyref.CornersOf(*back)
 			if ds := compare(orig, got, exps); len(ds) > 0 {
 				for _, d := range ds {
@@ -708,6 +714,56 @@ func (k checker) eval(cs Case) {
 		c.Nontrivial(caseKey(compact))
 	}
 	c.Sample(scope, compact)
+}
+
+// readerVariants feeds the written bytes through every other io.Reader delivery (and, for the
+// Files subset, through *os.File, ply.Load and ply.Save→ply.Load on a temp file under /dev/shm) and
+// demands a result identical to the *bytes.Reader delivery.
+func (k checker) readerVariants(cs Case, scope string, isAlarmed bool, fl string, lib ply.Format, shape string, data []byte, base *plyio.Result, violate func(site, clause, class, detail string)) {
+	c := k.c
+	vscope := "reader-variants/" + scope
+	if !isAlarmed {
+		c.ReportedOnly(vscope, "reader variants outside the alarmed scope: run and counted, never alarmed")
+	}
+	ladder := ""
+	if cs.Mesh.Gen != "" {
+		ladder = "/size-ladder"
+	}
+	differs := 0
+	n := plyio.Variants(data, base, cs.Files, func(variant, kind, vsite, detail string) {
+		violate(vsite, clauseReader, "reader="+variant+"/"+kind+"/"+fl+"/"+cs.Mesh.Topo+ladder, detail)
+		differs++
+	})
+	if cs.Files && cs.W.Kind == "default" && plyref.ShmDir() != "" {
+		// the file API of the writer: ply.Save must put the same bytes on disk, ply.Load must read them
+		path := plyref.TempFile(nil)
+		if path != "" {
+			var serr error
+			o := core.Guard(func() { serr = ply.Save(path, cs.Mesh.Build(), lib) })
+			saved, _ := os.ReadFile(path)
+			n++
+			switch {
+			case o.Panicked || serr != nil:
+				msg := o.Msg
+				if serr != nil {
+					msg = serr.Error()
+				}
+				violate("ply.Save", clauseReader, "writer=ply.Save/error/"+fl+"/"+cs.Mesh.Topo+ladder, "ply.Save failed where ply.Write succeeds: "+msg)
+				differs++
+			case !bytes.Equal(saved, data):
+				violate("ply.Save", clauseReader, "writer=ply.Save/different-bytes/"+fl+"/"+cs.Mesh.Topo+ladder, fmt.Sprintf("ply.Save put %d bytes on disk, ply.Write produced %d (or other content)", len(saved), len(data)))
+				differs++
+			}
+			os.Remove(path)
+		}
+	}
+	for i := 0; i < n; i++ {
+		if i < differs {
+			c.Eval(vscope, "differs")
+		} else {
+			c.Eval(vscope, "identical")
+		}
+	}
 }
 
 // crossCompare: little vs big must agree exactly (the same numbers in another byte order); ascii
@@ -830,7 +886,8 @@ func run(c *core.Ctx) {
 					}
 				}
 				for _, w := range ws {
-					k.eval(Case{Scope: "A/attribute-subsets/" + sh.name, Mesh: mc, W: w})
+					// reader variants on every fourth (attribute subset, scalar subset) pair
+					k.eval(Case{Scope: "A/attribute-subsets/" + sh.name, Mesh: mc, W: w, Readers: (mask^sm)&3 == 0})
 				}
 			}
 		}
@@ -872,6 +929,12 @@ func (k checker) smesh(next func() bool) {
 			{"Normal", 3, "int", []string{"nx", "ny", "nz"}},
 		}},
 	}
+	// reader variants on every 8th mesh (thorough: every 32nd)
+	stride := 8
+	if c.Thorough() {
+		stride = 32
+	}
+	c.Bound("B.reader_variant_stride", stride)
 	n := meshlib.Enum(opt, func(i int, s meshlib.Spec) bool {
 		if c.Expired() {
 			return false
@@ -882,7 +945,7 @@ func (k checker) smesh(next func() bool) {
 		for _, mix := range mixesB {
 			mc := MeshCfg{Topo: s.Topo, V: s.V, Idx: s.Idx, Pos: s.Pos, Attrs: mix.attrs}
 			for _, w := range ws {
-				k.eval(Case{Scope: "B/S_mesh(4,2)/" + mix.name, Mesh: mc, W: w})
+				k.eval(Case{Scope: "B/S_mesh(4,2)/" + mix.name, Mesh: mc, W: w, Readers: i%stride == 0})
 			}
 		}
 		return true
@@ -919,7 +982,9 @@ func (k checker) ladder(next func() bool) {
 				if tex {
 					attrs = append(attrs, AttrCfg{"TexCoord", 2, "gen"})
 				}
-				k.eval(Case{Scope: "L/size-ladder/" + gen, Mesh: MeshCfg{Gen: gen, N: n, Attrs: attrs}, W: w})
+				// *os.File / ply.Load / ply.Save do real I/O: the rungs up to 2^12+1 and the top rung only
+				files := n <= 4097 || n == sizes[len(sizes)-1]
+				k.eval(Case{Scope: "L/size-ladder/" + gen, Mesh: MeshCfg{Gen: gen, N: n, Attrs: attrs}, W: w, Readers: true, Files: files})
 			}
 		}
 	}
@@ -1002,7 +1067,7 @@ func (k checker) customTypes(next func() bool) {
 									mc.Attrs = append(mc.Attrs, AttrCfg{"Class", 1, "gen"})
 									w := WCfg{Kind: "mw", Unspec: unspec, Ptr: ptr, Props: props,
 										Label: fmt.Sprintf("MeshWriter{%s/%d as %s, Position as %s, order %d, unspecified %v, ptr %v}", subA.Name, subA.W, st, pt, order, unspec, ptr)}
-									k.eval(Case{Scope: "C/custom-writer-types/" + sh.name, Mesh: mc, W: w})
+									k.eval(Case{Scope: "C/custom-writer-types/" + sh.name, Mesh: mc, W: w, Readers: true})
 								}
 							}
 						}
@@ -1035,7 +1100,7 @@ func (k checker) materials(next func() bool) {
 				attrs[0].Val = "gen"
 				mc := MeshCfg{Topo: sh.topo, V: sh.v, Idx: sh.idx, Attrs: attrs, Mat: mat}
 				for _, w := range writersAB() {
-					k.eval(Case{Scope: "D/materials/" + sh.name, Mesh: mc, W: w})
+					k.eval(Case{Scope: "D/materials/" + sh.name, Mesh: mc, W: w, Readers: true, Files: true})
 				}
 			}
 		}
